@@ -137,6 +137,11 @@ class Report:
             self.trusted_base.append(text)
 
     # -- finishing --------------------------------------------------------
+    def defer(self, e: "AnalysisError") -> None:
+        if not hasattr(self, "deferred"):
+            self.deferred: List[AnalysisError] = []
+        self.deferred.append(e)
+
     def finish(self) -> int:
         # floors: a rule that matches fewer instances than confirmed by hand is broken.  A
         # violation found elsewhere is still reported (below); only a run with nothing new to
@@ -163,6 +168,10 @@ class Report:
                 new.append(f)
         if floor_problems and not new:
             raise AnalysisError("; ".join(floor_problems) + ": anchors moved or an idiom is no longer recognised")
+        # an analysis error a check chose to defer (part of the code is outside what one rule can read): it
+        # decides the run only when no other rule reports a violation
+        if getattr(self, "deferred", None) and not new:
+            raise self.deferred[0]
         stale = [k for k in known_keys if k[0] == self.prop and k not in seen]
         obligations = sum(r.instances for r in self.rules.values() if r.armed)
         discharged = sum(r.discharged for r in self.rules.values() if r.armed)
